@@ -258,6 +258,11 @@ ChildPlan World::OnSpawn(Kernel& kk, const std::string& cmd, bool console) {
       Report("C06", "limit_exceeded", std::to_string(running) + " commands running with -j" + std::to_string(eff_j));
     if (r.plan.jobserver && r.plan.j < 0 && running > 1 + tokens_held)
       Report("C06", "limit_exceeded", std::to_string(running) + " commands running while holding " + std::to_string(tokens_held) + " jobserver tokens");
+    // -l N: a further command is only started while N minus the load average
+    // leaves room; the simulated load is never below the number of running commands
+    if (r.plan.l > 0 && running > 1 && (double)running > r.plan.l)
+      Report("C06", "limit_exceeded", std::to_string(running) + " commands running with -l" + std::to_string(r.plan.l) + " although the load average was at least " + std::to_string(running - 1) + " when the last one was started");
+    if (r.plan.l > 0 && running > 1 && (double)running >= r.plan.l - 1.0) stats->n["load_limit_reached"]++;
     if (!s.pool.empty()) {
       int in_pool = 1;
       for (auto& kv : live) if (kv.second >= 0 && kv.second < (int)sc.stmts.size() && sc.stmts[kv.second].pool == s.pool) in_pool++;
